@@ -841,7 +841,7 @@ impl Check for C14 {
         16
     }
     fn rule(&self) -> String {
-        "each case = one seeded history of 1..12 operations (write, read, read_to_string, File::copy incl. from an already-read handle, copy_file, create_dir, create_dir_all, remove_file, remove_dir, remove_dir_all, Directory::read iteration, exists, metadata, plus harness-side populate of trees with files/dirs/symlinks to outside and dangling/fifos, fan-out up to 40, thorough up to 3000, depth <=5) in a fresh directory; paths from a small colliding alphabet plus 255-byte, 100..250-byte, non-UTF-8 names, 1..17 components (beyond the 512-byte stack buffer, up to ~4000 bytes), dressed relative/absolute/./, repeated and trailing separators; even cases fault-free, odd cases with short read/write/copy_file_range, EINTR, reduced getdents window (288..512) and one hard EIO/ENOSPC. Oracle when an operation returns Ok: the tree observed with std::fs equals the model after that operation, returned data equals the model's, a sentinel tree outside is unchanged, iteration yields each entry exactly once with name and type; Ok after a hard error is a violation. non-trivial = the history changed the tree or iterated a directory of >=8 entries; distinct = hash of (operation, path shape, outcome) sequence".into()
+        "each case = one seeded history of 1..12 operations (write, read, read_to_string, File::copy incl. from an already-read handle, copy_file, create_dir, create_dir_all, remove_file, remove_dir, remove_dir_all, Directory::read iteration, exists, metadata, plus harness-side populate of trees with files/dirs/symlinks to outside and dangling/fifos, fan-out up to 40, thorough up to 3000, depth <=5) in a fresh directory; paths from a small colliding alphabet plus 255-byte, 100..250-byte, non-UTF-8 names, 1..17 components (beyond the 512-byte stack buffer, up to ~4000 bytes), dressed relative/absolute/./, repeated and trailing separators; half of the cases fault-free, half with short read/write/copy_file_range, EINTR, reduced getdents window (288..512) and one hard EIO/ENOSPC. Oracle when an operation returns Ok: the tree observed with std::fs equals the model after that operation, returned data equals the model's, a sentinel tree outside is unchanged, iteration yields each entry exactly once with name and type; Ok after a hard error is a violation. non-trivial = the history changed the tree or iterated a directory of >=8 entries; distinct = hash of (operation, path shape, outcome) sequence".into()
     }
     fn assumptions(&self) -> Vec<String> {
         vec![
@@ -853,8 +853,10 @@ impl Check for C14 {
         json!({"real": ["tiny_std::fs, rusl wrappers", "the kernel file system under /verif/work"], "stub": ["short transfers / EINTR / hard errors / getdents window injected at the sc seam"], "observer": "std::fs"})
     }
     fn run(&self, case: u64, dec: Dec, opts: &RunOpts) -> RunOut {
-        let with_faults = case % 2 == 1;
-        let big = opts.tier == Tier::Thorough && case % 64 == 0;
+        // by a hash of the case number (a plain modulus would hand every big case to one worker)
+        let hk = simk::dec::mix(&[case, 0xc14]);
+        let with_faults = hk % 2 == 1;
+        let big = opts.tier == Tier::Thorough && (hk >> 8) % 64 == 0;
         let r = std::panic::catch_unwind(std::panic::AssertUnwindSafe(|| run_history(dec, opts.record, case, with_faults, big)));
         let mut out = RunOut::default();
         match r {
